@@ -159,12 +159,17 @@ class MessageAny(TlbScheme):
         builder = Builder().store_cell(self.info.serialize())
         if self.init:
             builder.store_bit(1)  # maybe true
-            if len(self.init.serialize().bits) <= (builder.available_bits - 2) and len(self.init.serialize().refs) <= builder.available_refs:
+            init_cell = self.init.serialize()
+            bits_left = builder.available_bits - 2 - len(init_cell.bits)
+            refs_left = builder.available_refs - len(init_cell.refs)
+            # the body must still have a place behind an inline init: a free ref, or it fits inline itself
+            body_fits = refs_left >= 1 or (refs_left == 0 and not self.body.refs and len(self.body.bits) <= bits_left)
+            if bits_left >= 0 and body_fits:
                 builder.store_bit(0)  # Either left
-                builder.store_cell(self.init.serialize())
+                builder.store_cell(init_cell)
             else:
                 builder.store_bit(1)  # Either right
-                builder.store_ref(self.init.serialize())
+                builder.store_ref(init_cell)
         else:
             builder.store_bit(0)  # maybe false
         if len(self.body.bits) <= (builder.available_bits - 1) and len(self.body.refs) <= builder.available_refs:
